@@ -89,6 +89,43 @@ func runLogSeq(n int, ops []string) (string, string) {
 				done[i] = op
 			case 'f':
 				done[i] = "f" + body + "=" + showIDs(l.Filter(ownerOf(ot[0]), typ))
+			case 'C':
+				// this and the C ops that follow it: concurrent callers, 300 calls each; a caller
+				// reports the first answer that differs from the one it got alone
+				done[i] = op
+				if i > 0 && ops[i-1][0] == 'C' {
+					break
+				}
+				drain(l)
+				var grp []string
+				for _, o := range ops[i:] {
+					if o[0] != 'C' {
+						break
+					}
+					grp = append(grp, o[1:])
+				}
+				got := make([]string, len(grp))
+				for p, a := range grp {
+					x := strings.Split(a, ".")
+					got[p] = showIDs(l.Filter(ownerOf(x[0]), int(atou(x[1], 31))))
+				}
+				var wg sync.WaitGroup
+				for p, a := range grp {
+					wg.Add(1)
+					go func(p int, a string) {
+						defer wg.Done()
+						x := strings.Split(a, ".")
+						alone := got[p]
+						for j := 0; j < 300; j++ {
+							if r := showIDs(l.Filter(ownerOf(x[0]), int(atou(x[1], 31)))); r != alone {
+								got[p] = r
+								return
+							}
+						}
+					}(p, a)
+				}
+				wg.Wait()
+				outs = append(outs, got...)
 			}
 		}
 		if len(outs) == 0 {
@@ -190,6 +227,33 @@ func genC20(c *Ctx) {
 		})
 		c.count("concurrent")
 		c.emit(fmt.Sprintf("logconc %d %d %d %s", n, G, K, obs), "accept", true)
+	}
+	// concurrent Filter callers with different arguments on a logger at rest (ops "C"): each caller
+	// gets the answer to its own question, the one a sequential Filter gets
+	for k := 0; k < c.scale(120, 3000) && !c.stop(); k++ {
+		i++
+		r := c.rng(i)
+		n := 1 + r.Intn(32)
+		length := 1 + r.Intn(3*n)
+		var ops []string
+		for j := 0; j < length; j++ {
+			o := strconv.Itoa(r.Intn(3))
+			if r.Intn(10) == 0 {
+				o = "n"
+			}
+			ops = append(ops, fmt.Sprintf("L%s.%d", o, r.Intn(4)))
+		}
+		for p, G := 0, 2+r.Intn(4); p < G; p++ {
+			o := strconv.Itoa(r.Intn(3))
+			if r.Intn(3) == 0 {
+				o = "n"
+			}
+			ops = append(ops, fmt.Sprintf("C%s.%d", o, r.Intn(4)))
+		}
+		c.begin(fmt.Sprintf("logseq %d %s", n, strings.Join(ops, ",")))
+		line, obs := runLogSeq(n, ops)
+		c.count("concurrent-filters")
+		c.emit(line, obs, true)
 	}
 }
 
